@@ -88,6 +88,7 @@ func init() {
 				{Scenario: "c09_regets", Params: mustJSON(struct{}{}), Bound: 0, Shards: 2, Note: "one discovery object asked three times while the numbering changes (dynamic membership through the bus)"},
 				{Scenario: "c09_getrace", Params: mustJSON(struct{}{}), Bound: 0, Shards: 2, Note: "a renumbering announced at every scheduling point of a running Get(): the result is the chunk of the old or of the new numbering"},
 				{Scenario: "c10_sd", Params: mustJSON(struct{}{}), Bound: 0, Shards: 4, Note: "leader-assigned numbering: at every instant members that agree on the group size hold distinct numbers (also after a failed Rebalance RPC in steady state)"},
+				{Scenario: "c09_singleton", Params: mustJSON(struct{}{}), Bound: 0, Note: "T = N: every set is a single vBucket (member 1: the range 0..0) - streamed, acknowledged, saved, resumed"},
 				{Scenario: "c02_sessions", Params: mustJSON(SessionsParams{Backend: "file"}), Bound: 0, Shards: 2, Note: "what a member STREAMS is its chunk - through three sessions of one process with the file backend (whose Load returns every vBucket of the file): no stream outside the set"},
 				{Scenario: "c02_sessions", Params: mustJSON(SessionsParams{Backend: "append"}), Bound: 0, Shards: 2, Note: "the same with a custom backend that appends to the id list it is handed: the sets of later sessions are unaffected"},
 				{Scenario: "c02_sessions", Params: mustJSON(SessionsParams{}), Bound: 0, Shards: 2},
